@@ -9,6 +9,7 @@ mod read;
 mod robust;
 mod tables;
 mod trunc;
+mod uniform;
 mod streams;
 mod util;
 mod wire;
@@ -166,6 +167,19 @@ fn main() {
                 serde_json::to_writer(&mut w, &tables::random_tables_case(seed, i)).unwrap();
                 w.write_all(b"\n").unwrap();
             }
+        }
+        "uniform-run" => {
+            // uniform-run <cases.ndjson> <trace.ndjson>
+            let cases = read_cases(&a[2]);
+            let mut w = BufWriter::new(File::create(&a[3]).unwrap());
+            let mut out = mux::Out { w: &mut w, events: 0 };
+            for c in cases.iter() {
+                uniform::run_case(c, &mut out);
+            }
+            let n = out.events;
+            drop(out);
+            w.flush().unwrap();
+            println!("{{\"cases\":{},\"events\":{}}}", cases.len(), n);
         }
         "read-run" => {
             let cases = read_cases(&a[2]);
